@@ -38,7 +38,8 @@ TreesOfLen(k) ==
 Trees == UNION {TreesOfLen(k) : k \in 1..N}
 
 \* ---- configurations -----------------------------------------------------
-Ranges == IF FLAVOUR = "C02" THEN {<<a, b>> : a \in 0..3, b \in {0, 1, 2, NoMax}}
+Ranges == IF FLAVOUR = "C02u" THEN {<<0, NoMax>>, <<1, 1>>, <<0, 0>>, <<2, NoMax>>}
+          ELSE IF FLAVOUR = "C02" THEN {<<a, b>> : a \in 0..3, b \in {0, 1, 2, NoMax}}
           ELSE IF FLAVOUR = "C03" THEN {<<0, NoMax>>, <<1, 2>>}
           ELSE {<<0, NoMax>>, <<1, 1>>}
 Modes == IF FLAVOUR = "C03" THEN {"P", "L"} ELSE IF FLAVOUR = "C18" THEN {"P", "H"} ELSE {"P", "H", "L"}
@@ -64,11 +65,17 @@ PruneChoices(t, cfg, roots) ==
   IF FLAVOUR # "C03" THEN {{}}
   ELSE {S \in SUBSET DirPaths(t, cfg, roots) : Cardinality(S) <= 2}
 
+\* FLAVOUR "C02u": as "C02", and one directory of the tree (or none) cannot be read
+Mark(t, k) == [i \in DOMAIN t |-> [parent |-> t[i].parent, name |-> t[i].name, kind |-> t[i].kind, target |-> t[i].target, noread |-> (i = k)]]
+TreeChoices == IF FLAVOUR = "C02u"
+               THEN UNION {{Mark(t, k) : k \in {0} \cup {i \in DOMAIN t : t[i].kind = "d"}} : t \in Trees}
+               ELSE Trees
+
 VARIABLES tree, roots, cfg, files0
 vars == <<tree, roots, cfg, files0>>
 
 Init ==
-  /\ tree \in Trees
+  /\ tree \in TreeChoices
   /\ roots \in RootChoices(tree)
   /\ \E m \in Modes, r \in Ranges, d \in (IF FLAVOUR = "C18" THEN {FALSE} ELSE BOOLEAN) :
        \E pr \in PruneChoices(tree, BaseCfg(m, r, d), roots) :
@@ -89,8 +96,20 @@ NoDuplicates == Len(roots) = 1 => \A i, j \in DOMAIN W.ents : i # j => W.ents[i]
 \* -P: exactly the nodes of the starting point's subtree, at their distance from it
 RECURSIVE DistTo(_, _, _)
 DistTo(t, n, r) == IF n = r THEN 0 ELSE IF n = 0 THEN -1000 ELSE 1 + DistTo(t, t[n].parent, r)
+\* an unreadable directory costs exactly one error and hides exactly what is beneath it
+RECURSIVE Beneath(_, _, _)
+Beneath(t, n, a) == n # 0 /\ t[n].parent # 0 /\ (t[n].parent = a \/ Beneath(t, t[n].parent, a))
+UnreadableLaw ==
+  (FLAVOUR = "C02u" /\ cfg.mode = "P") =>
+     LET plain == [i \in DOMAIN tree |-> [tree[i] EXCEPT !.noread = FALSE]]
+         full == WalkRoots(plain, cfg, roots)
+         bad == {i \in DOMAIN tree : tree[i].noread} IN
+     /\ Paths(W.ents) = Paths(SelectSeq(full.ents, LAMBDA e : ~\E b \in bad : Beneath(tree, e.node, b)))
+     /\ LET all == WalkRoots(plain, [cfg EXCEPT !.min = 0], roots).ents IN
+        W.errs = full.errs + Cardinality({b \in bad : \E k \in DOMAIN all : all[k].node = b /\ all[k].depth < cfg.max})
+
 PhysicalCompleteness ==
-  (cfg.mode = "P" /\ cfg.prune = {} /\ Len(roots) = 1 /\ roots[1].node # 0) =>
+  (cfg.mode = "P" /\ cfg.prune = {} /\ Len(roots) = 1 /\ roots[1].node # 0 /\ FLAVOUR # "C02u") =>
      LET r == roots[1].node
          want == {n \in DOMAIN tree : DistTo(tree, n, r) >= cfg.min /\ DistTo(tree, n, r) <= cfg.max}
      IN /\ {W.ents[k].node : k \in DOMAIN W.ents} = want
